@@ -140,7 +140,7 @@ theorem gate_logon (s : Sess) (m : InMsg) (h0 : Obs.onLogon ∉ s.log) (h : Obs.
         have hreset : ((if s2.cfg.initiator = true then false else s2.cfg.resetOnLogon) || logonResetFlag m && !s2.sentReset) = logonResets s m := by
           unfold logonResets; rw [h2.cfg, a2.2]
         rw [hreset] at h
-        generalize hs3 : (if logonResets s m = true then s2.storeReset else s2) = s3 at h
+        generalize hs3 : (if logonResets s m = true then dropAndReset s2 else s2) = s3 at h
         have h3 : RelF (fun o => o ≠ Obs.onLogon) (fun _ _ => True) s s3 := by rw [← hs3]; rel_peel
         have a3 : s3.store.target = if logonResets s m then 1 else s.store.target := by
           rw [← hs3]; split
